@@ -32,6 +32,13 @@ func vConcOp(w *vWorld, tag string, pre []*vUp, kinds int) {
 		w.gs.VerifApplyDelta(vMkDelta("r", []pkggossip.Entry{{Key: "proxy_addr", Value: "p:2", Version: 1}, {Key: "admin_addr", Value: "a:2", Version: 2}, {Key: "endpoint:" + w.ids[0], Value: "2", Version: 3}}))
 	case 5: // compaction task
 		w.gs.VerifCompactLocal(0)
+	case 7: // liveness task: the remote node turns unreachable or recovers
+		w.gs.VerifDetector().Levels["r"] = float64(100 * v.Choose(tag+".level", 2))
+		w.gs.VerifUpdateLiveness(20)
+	case 8: // expiry task
+		w.gs.RemoveExpiredAt(v.Time(tag + ".sweep"))
+	case 9: // incoming digest naming an unknown node, and the node leaving
+		w.gs.VerifApplyDigest(pkggossip.VerifMakeDigest("r2", "g:3", v.U64(tag+".dv"), v.Choose(tag+".dleft", 2) == 1))
 	case 6: // status reads, digest and delta generation
 		_ = w.m.Endpoints()
 		_ = w.cs.Nodes()
@@ -50,7 +57,7 @@ func vConcOp(w *vWorld, tag string, pre []*vUp, kinds int) {
 // bounded pre-emptions). No schedule deadlocks or panics, and when both have
 // finished the registry, the routing table and the published gossip state
 // agree (C05 "under concurrent execution", C20 "when activity stops").
-func Harness_C20_concurrent() { vConcurrent("C20/concurrent", 7) }
+func Harness_C20_concurrent() { vConcurrent("C20/concurrent", v.Param("kinds", 7)) }
 
 // Harness_C05_concurrent: the same, restricted to connects, disconnects
 // (including the same upstream removed by two goroutines: the proxy dropping
@@ -63,6 +70,10 @@ func vConcurrent(label string, kinds int) {
 	var pre []*vUp
 	for i := 0; i < v.Choose("registered", 3); i++ {
 		pre = append(pre, w.add(v.Choose("pre.ep", 2)))
+	}
+	if v.Param("remote", 0) == 1 && v.Choose("remote-known", 2) == 1 {
+		// a remote node is already known and promoted
+		w.gs.VerifApplyDelta(vMkDelta("r", []pkggossip.Entry{{Key: "proxy_addr", Value: "p:2", Version: 1}, {Key: "admin_addr", Value: "a:2", Version: 2}, {Key: "endpoint:" + w.ids[0], Value: "2", Version: 3}}))
 	}
 	v.Tag("serialised")
 	var wg sync.WaitGroup
